@@ -75,3 +75,8 @@ Definition sx_rough (r : rres) : sx :=
   | RDist (DErr e) | RErr e => sx_perr e
   | RFrac n m => sx_rough_float (SF2Prim (sf_div_Z (Z.of_nat n) (Pos.of_nat m)))
   end.
+
+(* the delta the implementation produced, re-expressed as positions in t1 / t2:
+   same dict (up to identity tags), valid, and whether it is inside the guard *)
+Definition sd_check (t1 t2 : value) (sd : sdelta) (generic : dv) : sx :=
+  SL [sx_bool (dv_eqb (dv_of_sdelta t1 t2 sd) generic); sx_bool (sd_valid sd); sx_bool (tc_guard t1 t2 sd)].
